@@ -7,6 +7,7 @@ import (
 	"strings"
 	"sync"
 	"sync/atomic"
+	"time"
 
 	"github.com/bufbuild/protocompile/ast"
 	"github.com/bufbuild/protocompile/reporter"
@@ -67,6 +68,17 @@ func (e *reporterEngine) mkReporter(reported *[]int, warned *[]int, inFlight, ma
 		}
 		return nil
 	}, func(err reporter.ErrorWithPos) {
+		// warnings go through the same (non thread-safe) reporter: count overlap here too,
+		// and linger a little so that an unserialised call is actually observed
+		c := inFlight.Add(1)
+		for {
+			m := maxC.Load()
+			if c <= m || maxC.CompareAndSwap(m, c) {
+				break
+			}
+		}
+		time.Sleep(20 * time.Microsecond)
+		defer inFlight.Add(-1)
 		var ie idErr
 		id := -1
 		if errors.As(err.Unwrap(), &ie) {
@@ -172,8 +184,9 @@ func (e *reporterEngine) Exec(op string) string {
 				defer wg.Done()
 				for j := 0; j < m; j++ {
 					_ = ch.HandleError(posErr(1 + i*m + j))
+					ch.HandleWarning(posErr(1))
 					if j%3 == 0 {
-						ch.HandleWarning(posErr(1))
+						ch.HandleWarning(posErr(2))
 					}
 				}
 			}(i)
